@@ -8,7 +8,11 @@ import (
 	"strings"
 	"time"
 
+	proto "github.com/kubewharf/kubebrain-client/api/v2rpc"
+
 	"github.com/kubewharf/kubebrain/pkg/backend"
+	"github.com/kubewharf/kubebrain/pkg/backend/scanner"
+	"github.com/kubewharf/kubebrain/pkg/storage"
 	"github.com/kubewharf/kubebrain/zz_verif/h/hx"
 	"github.com/kubewharf/kubebrain/zz_verif/h/mc"
 	"github.com/kubewharf/kubebrain/zz_verif/rt/vrt"
@@ -160,6 +164,57 @@ func c19Scenarios(tier string) []*mc.Scenario {
 		vrt.Quiesce()
 		w.clean = true
 	}})
+	// the scanner runs one worker per partition: a List / Count / streamed range over two partitions,
+	// against a writer on a key next to the border
+	partitioned := func(read string) *mc.Scenario {
+		return &mc.Scenario{Body: func(x *mc.X) {
+			scanner.VerifSetRangeStreamBatch(2)
+			w := newWorld(hx.Mem, 16)
+			defer w.close()
+			for _, k := range []string{"/r/a", "/r/b"} {
+				w.do(&clientOp{Key: k, Kind: rCreate, Val: "v"})
+				vrt.Quiesce()
+			}
+			b1 := hx.Coder.EncodeObjectKey([]byte("/r/b"), 0)
+			w.kv.Partitions = func(start, end []byte) []storage.Partition {
+				return []storage.Partition{{Start: start, End: b1}, {Start: b1, End: end}}
+			}
+			vrt.BeginExplore()
+			t1 := vrt.Go(func() { w.do(&clientOp{Key: "/r/b", Kind: rDel0}) })
+			t2 := vrt.Go(func() {
+				switch read {
+				case "list":
+					w.b.List(bg, &proto.RangeRequest{Key: []byte("/r/"), End: []byte("/r0")})
+				case "count":
+					w.b.Count(bg, &proto.CountRequest{Key: []byte("/r/"), End: []byte("/r0")})
+				default:
+					ch, err := w.b.ListByStream(bg, []byte("/r/"), []byte("/r0"), 0)
+					if err != nil {
+						return
+					}
+					for {
+						vrt.Recv(ch)
+						_, ok := <-ch
+						vrt.Recvd()
+						if !ok {
+							return
+						}
+					}
+				}
+			})
+			vrt.Join(t1)
+			vrt.Join(t2)
+			vrt.Quiesce()
+			w.kv.Partitions = nil
+			w.clean = true
+		}}
+	}
+	add("partitioned-list-and-writer", partitioned("list"))
+	add("partitioned-stream-and-writer", partitioned("stream"))
+	if tier == "thorough" {
+		add("partitioned-count-and-writer", partitioned("count"))
+	}
+	add("follower-readers", c18SyncScenario(2, 1))
 	add("retry-loop-and-writer", &mc.Scenario{Body: func(x *mc.X) {
 		backend.VerifSetIntervals(5*time.Second, time.Second)
 		w := newWorld(hx.Mem, 16)
@@ -192,7 +247,7 @@ func init() {
 	mc.Register(&mc.Property{
 		ID:        "C19",
 		Level:     "model_checking",
-		Rule:      "every schedule (preemption-bounded DFS with happens-before state cache) of 10 concurrent workloads on the real backend over the in-memory engine - two writers on one key, creators after a delete, writer + point/range reader, writers on distinct keys, watcher with stalled and eager consumer, compactor + writer + reader, list-then-watch, two concurrent compactions, the unknown-outcome retry loop against a writer and a compaction - executed on a binary built with -race; the per-execution oracle is the Go race detector, which sees only the program's own synchronisation (the scheduler's baton is invisible to it); a report counts when both accesses lie in the node's own code or the in-process engine below it",
+		Rule:      "every schedule (preemption-bounded DFS with happens-before state cache) of 13 concurrent workloads on the real backend over the in-memory engine - two writers on one key, creators after a delete, writer + point/range reader, writers on distinct keys, watcher with stalled and eager consumer, compactor + writer + reader, list-then-watch, two concurrent compactions, List / streamed range (thorough: Count) over two partitions (one scanner worker each) against a writer, two follower readers sharing the revision fetch, the unknown-outcome retry loop against a writer and a compaction - executed on a binary built with -race; the per-execution oracle is the Go race detector, which sees only the program's own synchronisation (the scheduler's baton is invisible to it); a report counts when both accesses lie in the node's own code or the in-process engine below it",
 		Assume:    []string{"GOMAXPROCS=1 (the baton is a plain word)", "ThreadSanitizer reports each pair of access stacks once per process and keeps a bounded access history: it can miss a race, it cannot invent one", "scheduling points at sync/atomic/channel operations only: an unsynchronised access is not itself a scheduling point, the detector finds it from the happens-before relation of the explored execution"},
 		Scenarios: c19Scenarios,
 		Drive: func(c *mc.Ctx) {
@@ -205,7 +260,7 @@ func init() {
 				if c.Tier == "thorough" {
 					p.Bounds = []int{0, 1, 2}
 				}
-				heavy := strings.Contains(sc.Name, "compactor") || strings.Contains(sc.Name, "list-then") || strings.Contains(sc.Name, "stalled") || strings.Contains(sc.Name, "retry-loop") || strings.Contains(sc.Name, "eager")
+				heavy := strings.Contains(sc.Name, "partitioned") || strings.Contains(sc.Name, "compactor") || strings.Contains(sc.Name, "list-then") || strings.Contains(sc.Name, "stalled") || strings.Contains(sc.Name, "retry-loop") || strings.Contains(sc.Name, "eager")
 				if heavy && c.Tier == "quick" {
 					p.Bounds = []int{0}
 				}
